@@ -31,11 +31,15 @@ NearMisses == { A, B, C, D,
     "http://a.test:8080/", "https://foo.example\thttps://bar.example", "https://foo.example https://bar.example",
     "https://bar.example,https://foo.example", "*", "https://*.example" }
 
+\* creds_as: how "credentials off" is expressed to the server -- the literal false, an empty value, or nothing at all
 Configs ==
-    { [all |-> al, origins |-> os, creds |-> cr, methods |-> ms, headers |-> hs, expose |-> "content-type", maxage |-> ma]
-        : al \in BOOLEAN, os \in OriginLists, cr \in BOOLEAN,
+    { [all |-> al, origins |-> os, creds |-> cr, creds_as |-> ca, methods |-> ms, headers |-> hs, expose |-> "content-type", maxage |-> ma]
+        : al \in BOOLEAN, os \in OriginLists, cr \in BOOLEAN, ca \in {"literal", "unset", "empty"},
           ms \in {"GET,POST", "PUT"}, hs \in {"content-type,x-custom-header", "X-Upper"}, ma \in {"86400", "5"} }
-Covering == { c \in Configs : \/ (c.methods = "GET,POST" /\ c.headers = "content-type,x-custom-header" /\ c.maxage = "86400")
+    \ { c \in [all : BOOLEAN, origins : OriginLists, creds : {TRUE}, creds_as : {"unset", "empty"}, methods : {"GET,POST", "PUT"},
+                headers : {"content-type,x-custom-header", "X-Upper"}, expose : {"content-type"}, maxage : {"86400", "5"}] : TRUE }
+Covering == { c \in Configs : \/ (c.methods = "GET,POST" /\ c.headers = "content-type,x-custom-header" /\ c.maxage = "86400"
+                                    /\ (c.creds_as = "literal" \/ (~c.all /\ Len(c.origins) = 2)))
                               \/ (c.methods = "PUT" /\ c.headers = "X-Upper" /\ c.maxage = "5" /\ c.origins = <<A, B>>) }
 
 Req(cfg, m, has, org, pf) == [cfg |-> cfg, method |-> m, has_origin |-> has, origin |-> org, preflight |-> pf]
